@@ -4,8 +4,24 @@
    [lead_rr off n r = (off + r) mod n], among any [faulty n + 1] consecutive rounds at least one has
    its leader outside any given set of at most [faulty n] processes (all n >= 1).
 
-   Part 2: the closed synchronous-round system on top of [Model.fstep] (definitions only; the
-   proofs are in GoodRoundFacts.v, the vm_compute instances in GoodRoundEx.v). *)
+   Part 2: the closed synchronous-round system on top of [Model.fstep] and the hypotheses of
+   [good_round_decides] (definitions only).  Proofs: GoodRoundFacts.v (per-process "received =>
+   done" invariants, counting, round 1), GoodRoundQrc.v (leader proposing on a quorum of
+   ROUND-CHANGEs: getJustifiedQrc cannot fail, the proposal is justified everywhere; the combined
+   theorem [good_round_decides]; reachable-state facts), GoodRoundEx.v (vm_compute instances, the
+   executable form [gexec] of the system, boolean checkers of the hypotheses, the FIFO refutation).
+
+   Differences from the statement in DESIGN.md (C04), all recorded in Properties/C04_live.v:
+   - the hypotheses on the initial configuration are closure conditions ([pool_ok], [start_ok],
+     [leader_ok], [pool_fresh], [buf_fresh]) that hold in crash-only executions; the single-process
+     ones are proved invariants of [run] from [init], the multi-process ones ("what a process did in
+     round r is in the pool", "one value per round") are stated;
+     TODO: derive them from reachability in the network semantics Qbft/Net.v without Byzantine members;
+   - the reachable-state invariant [ModelFacts.inv] turned out not to be needed;
+   - no Input event inside the window: the leader already has its input value;
+   - the FIFO bound is [fifo_ok] (initially buffered + delivered in the window <= FIFOLimit, per
+     receiver and source), which is what the proof needs; [good_round_without_fifo_refuted] shows it
+     cannot be dropped. *)
 From Coq Require Import List NArith Arith Bool Lia.
 From Charon Require Import Common.Quorum Qbft.Model Qbft.ModelFacts.
 Import ListNotations.
